@@ -29,7 +29,7 @@ BASES = {"Exception": Exception, "UserError": UserError, "A": UserErrorA, "A+O":
 
 def cases(tier, seed):
     out = []
-    n = 90 if tier == "quick" else 900
+    n = 90 if tier == "quick" else 20000
     for i in range(n):
         out.append({"name": "retry.script/%d" % i, "kind": "gen", "idx": i})
     cap = 24 if tier == "quick" else None
